@@ -184,6 +184,18 @@ def structural(ctx, sw, w, label, raw, recips, inner, want, alg, other=None):
     muts.append(('encrypted data duplicated', allesk + sp + sp))
     muts.append(('no session-key packet', sp))
     muts.append(('no encrypted data packet', allesk))
+    # unencrypted content packets next to the encrypted data (no key needed to make them): never the result of decrypt
+    import zlib as _zlib, bz2 as _bz2
+    evil = b'b\x00' + bytes(4) + b'EVIL TEXT'
+    evil_lit = newhdr(11, len(evil)) + evil
+    def _comp(a, data):
+        body = bytes([a]) + ({0: lambda x: x, 1: lambda x: _zlib.compress(x)[2:-4], 2: _zlib.compress, 3: _bz2.compress}[a])(data)
+        return newhdr(8, len(body)) + body
+    extras = [('literal', evil_lit)] + [('compressed(%d) literal' % a, _comp(a, evil_lit)) for a in (0, 1, 2, 3)]
+    for nm, pkt in extras:
+        muts.append(('append an unencrypted %s' % nm, raw + pkt))
+        muts.append(('prepend an unencrypted %s' % nm, pkt + raw))
+        muts.append(('unencrypted %s between session keys and data' % nm, allesk + pkt + sp))
     if len(esks) > 1:
         muts.append(('session keys reversed', b''.join(raw[p[1]:p[3]] for p in reversed(esks)) + sp))
         for p in esks:
@@ -327,7 +339,16 @@ def downgrade_witness(ctx, sw, w):
 def wrong_secrets(ctx, sw, w, label, raw, recips, inner, want):
     rng = ctx.rng
     tried = 0
-    for pw in ['', 'x', 'PW', 'pw ', ' pw', 'pw0 ', 'pw\x00', 'wrong horse', 'pässword'] + ['r%d' % rng.randrange(10 ** 9) for _ in range(ctx.n(6, 60))]:
+    # strings that some normalisation (case, width, compatibility forms, blanks, byte-order mark) would fold onto a right passphrase
+    folds = []
+    for r in recips:
+        if r[0] == 'P' and isinstance(r[1], str):
+            pw0 = r[1]
+            folds += [pw0.upper(), pw0.capitalize(), pw0 + '\n', pw0 + '\r\n', '\ufeff' + pw0, pw0 + '\u200b', pw0 + '\x00',
+                      ''.join(chr(ord(c) + 0xfee0) if 0x21 <= ord(c) <= 0x7e else c for c in pw0),      # full-width forms (NFKC folds them back)
+                      pw0.replace('0', '\u2070').replace('2', '\u00b2'), pw0.replace('w', 'w\u0301'), pw0.replace('s', '\u017f'),
+                      pw0.encode('utf-8') + b' ', pw0.encode('utf-16-le')]
+    for pw in folds + ['', 'x', 'PW', 'pw ', ' pw', 'pw0 ', 'pw\x00', 'wrong horse', 'pässword'] + ['r%d' % rng.randrange(10 ** 9) for _ in range(ctx.n(6, 60))]:
         if any(r[0] == 'P' and r[1] == pw for r in recips):
             continue
         o = sw.one('wrong-passphrase', label, 'passphrase %r' % pw, raw, ('P', pw), inner, want)
